@@ -120,6 +120,23 @@ pub const TARGETS: &[Target] = &[
     t!("ExtMap.fromBytes", "SrcParse", EXTMOD, Some("ExtensionsMap"), "from_bytes", "Bytes → Res ExtMap", "UL.ExtMap.fromBytes", &[], "Parse"),
     t!("Locale.parse", "SrcParse", LOCPARSER, None, "parse_locale", "Bytes → Res Locale", "UL.Locale.fromBytes", &[], "Parse"),
     t!("Locale.fromBytes", "SrcParse", LOCLIB, Some("Locale"), "from_bytes", "Bytes → Res Locale", "UL.Locale.fromBytes", &[], "Parse"),
+    // ---- Display (the formatter is an output buffer), is_empty, canonicalize
+    t!("Language.fmt", "SrcParse", LANG, Some("Display for Language"), "fmt", "Option Bytes → Bytes → Bytes", "(fun l f => f ++ UL.Language.asStr l)", &[], "Fmt"),
+    t!("Script.fmt", "SrcParse", SCRIPT, Some("Display for Script"), "fmt", "Bytes → Bytes → Bytes", "(fun s f => f ++ s)", &[], "Fmt"),
+    t!("Region.fmt", "SrcParse", REGION, Some("Display for Region"), "fmt", "Bytes → Bytes → Bytes", "(fun s f => f ++ s)", &[], "Fmt"),
+    t!("Variant.fmt", "SrcParse", VARIANT, Some("Display for Variant"), "fmt", "Bytes → Bytes → Bytes", "(fun s f => f ++ s)", &[], "Fmt"),
+    t!("LangId.fmt", "SrcParse", LIB, Some("Display for LanguageIdentifier"), "fmt", "LangId → Bytes → Bytes", "(fun x f => f ++ UL.LangId.display x)", &[], "Fmt"),
+    t!("UExt.isEmpty", "SrcParse", UNICODE, Some("UnicodeExtensionList"), "is_empty", "UExt → Bool", "UL.UExt.isEmpty", &[], "Fmt"),
+    t!("TExt.isEmpty", "SrcParse", TRANSFORM, Some("TransformExtensionList"), "is_empty", "TExt → Bool", "UL.TExt.isEmpty", &[], "Fmt"),
+    t!("PExt.isEmpty", "SrcParse", PRIVATE, Some("PrivateExtensionList"), "is_empty", "List Bytes → Bool", "(fun p => List.isEmpty p)", &[], "Fmt"),
+    t!("ExtMap.isEmpty", "SrcParse", EXTMOD, Some("ExtensionsMap"), "is_empty", "ExtMap → Bool", "UL.ExtMap.isEmpty", &[], "Fmt"),
+    t!("UExt.fmt", "SrcParse", UNICODE, Some("Display for UnicodeExtensionList"), "fmt", "UExt → Bytes → Bytes", "(fun u f => f ++ UL.dashAll (UL.UExt.tokens u))", &[], "Fmt"),
+    t!("TExt.fmt", "SrcParse", TRANSFORM, Some("Display for TransformExtensionList"), "fmt", "TExt → Bytes → Bytes", "(fun x f => f ++ UL.dashAll (UL.TExt.tokens x))", &[], "Fmt"),
+    t!("PExt.fmt", "SrcParse", PRIVATE, Some("Display for PrivateExtensionList"), "fmt", "List Bytes → Bytes → Bytes", "(fun p f => f ++ UL.dashAll (UL.PExt.tokens p))", &[], "Fmt"),
+    t!("ExtMap.fmt", "SrcParse", EXTMOD, Some("Display for ExtensionsMap"), "fmt", "ExtMap → Bytes → Bytes", "(fun m f => f ++ UL.ExtMap.display m)", &[], "Fmt"),
+    t!("Locale.fmt", "SrcParse", LOCLIB, Some("Display for Locale"), "fmt", "Locale → Bytes → Bytes", "(fun x f => f ++ UL.Locale.display x)", &[], "Fmt"),
+    t!("LangId.canonicalize", "SrcParse", LIB, None, "canonicalize", "Bytes → Res Bytes", "UL.LangId.canonicalize", &[], "Fmt"),
+    t!("Locale.canonicalize", "SrcParse", LOCLIB, None, "canonicalize", "Bytes → Res Bytes", "UL.Locale.canonicalize", &[], "Fmt"),
     // Stretch items: registered so that the report says precisely why they are not translated
     // (tuples, `unsafe`, integer packing and table look-ups are outside the subset).
     t!("Likely.maximize", "Src", LIKELY, None, "maximize", "(stretch: look-ups as parameters)", "UL.Likely.maximize", &[], "Likely"),
